@@ -71,10 +71,9 @@ func (c13) Gen(r *Rand, idx int, tier string) interface{} {
 	}
 	p.Final = r.Pct(30)
 	p.ConsumeSome = r.Intn(3)
-	// Trigger of a listed finding (reader blocked on a full receive queue while Close waits for the lock):
-	// more unconsumed packages than the queue holds. Avoided in 80% of the close scenarios so that it does
-	// not eat the runs that could find something else, included deliberately in the rest.
-	if p.Kind != "cancel" && p.Kind != "close-send" && !r.Pct(20) {
+	// More unconsumed packages than the queue holds park the reader goroutine on the full queue while it holds
+	// the read lock (once a listed finding, repaired since): kept to about half of the close scenarios.
+	if p.Kind != "cancel" && p.Kind != "close-send" && !r.Pct(50) {
 		for c13Pending(p) > p.QueueSize && p.NPkgs > 0 {
 			p.NPkgs--
 		}
